@@ -49,8 +49,8 @@ PROFILES = {
                 m1_rate=0.2, reject_kinds=['formula_name', 'formula_syntax', 'formula_node'],
                 doc_cases=0.08),
     'C06': dict(weights=_w(apply=12, drop=12, dup=5, gc=10, swap=5, reorder=2,
-                           pairs=1, find_or_add=3, redo=10, probe=6),
-                flavors=['raw'], nv=(2, 7), steps=(20, 160)),
+                           pairs=1, find_or_add=3, redo=10, probe=6, reject=2),
+                flavors=['raw'], nv=(2, 7), steps=(20, 160), reject_kinds=['decref_zero']),
     'C07': dict(weights=_w(apply=8, drop=3, gc=2, swap=14, reorder=6,
                            pairs=4, eqcheck=2, mk_struct=5),
                 flavors=['raw', 'autoref'], nv=(1, 8), steps=(15, 100),
@@ -136,6 +136,10 @@ def _make_cfg(prop, seed, tier='quick', idx=0):
     P = PROFILES[prop]
     r = prng.stream(seed, 'cfg')
     nv = r.randint(*P['nv'])
+    if r.random() < P.get('wide', 0.06):
+        # a wide manager: levels 8 and above exist (small sets of small ints
+        # iterate in increasing order only below the size of their table)
+        nv = r.choice([9, 10, 10])
     names = r.sample(gen.NAME_POOL, nv)
     doc_cases = None
     if P.get('doc_cases'):
